@@ -104,6 +104,9 @@ func (c *ColArr[T]) DecodeColumn(r *Reader, rows int) error {
 	if err := c.Offsets.DecodeColumn(r, rows); err != nil {
 		return errors.Wrap(err, "read offsets")
 	}
+	if err := checkOffsets(c.Offsets); err != nil {
+		return errors.Wrap(err, "offsets")
+	}
 	var size int
 	if l := len(c.Offsets); l > 0 {
 		// Pick last offset as total size of "elements" column.
@@ -114,6 +117,19 @@ func (c *ColArr[T]) DecodeColumn(r *Reader, rows int) error {
 	}
 	if err := c.Data.DecodeColumn(r, size); err != nil {
 		return errors.Wrap(err, "decode data")
+	}
+	return nil
+}
+
+// checkOffsets checks that offsets never decrease, i.e. that every row is a
+// valid range of elements. Otherwise, Row panics after successful decoding.
+func checkOffsets(offsets ColUInt64) error {
+	var prev uint64
+	for i, v := range offsets {
+		if v < prev {
+			return errors.Errorf("offset %d of row %d is less than offset %d of previous row", v, i, prev)
+		}
+		prev = v
 	}
 	return nil
 }
